@@ -42,7 +42,7 @@ func slowSet(s string) bool { return s == "https-untrusted" || s == "refused+htt
 
 // reachable: does the set contain a URL from which a healthy server could be loaded at all
 func reachable(set string) bool {
-	return set == "http" || set == "ldap+http" || set == "refused+http" || set == "http-shared"
+	return set == "http" || set == "ldap+http" || set == "refused+http" || set == "http-shared" || set == "http-port-sibling"
 }
 
 type model struct {
@@ -60,12 +60,12 @@ func canLoad(c config, srv string) bool {
 
 func main() {
 	run := report.New("C10", "exploration")
-	run.Rule("configs = CDP set{http, https-untrusted, ldap, ldap+http, unparsable URL, refused+http, http shared by two certificates} x fetch mode x signature mode{verify,none} x backend x strict; histories over {server:=down|garbage|bad signature|good, handshake, refresh, restart} (+ for http/disk/strict five histories with a one-shot store-swap fault: the staged database vanishes before it is moved into place) starting with a server state: all of length <=3 (quick) / <=4 (thorough) plus seeded longer ones, sampled for the two slow sets; reference model tracks whether a CRL for the set can be in force; oracle: strict => a handshake is accepted only if the model allows 'in force' at that instant; lenient => an unlisted certificate is never denied; non-trivial = history with >=1 handshake whose verdict the model constrains (strict: accepted-and-allowed or denied-while-not-in-force; lenient: any); distinct = config + history")
+	run.Rule("configs = CDP set{http, https-untrusted, ldap, ldap+http, unparsable URL, refused+http, http shared by two certificates, http with a loaded sibling at the same host and path on another port (sampled)} x fetch mode x signature mode{verify,none} x backend x strict; histories over {server:=down|garbage|bad signature|good, handshake, refresh, restart} (+ for http/disk/strict five histories with a one-shot store-swap fault: the staged database vanishes before it is moved into place) starting with a server state: all of length <=3 (quick) / <=4 (thorough) plus seeded longer ones, sampled for the two slow sets; reference model tracks whether a CRL for the set can be in force; oracle: strict => a handshake is accepted only if the model allows 'in force' at that instant; lenient => an unlisted certificate is never denied; non-trivial = history with >=1 handshake whose verdict the model constrains (strict: accepted-and-allowed or denied-while-not-in-force; lenient: any); distinct = config + history")
 	run.Assume("'down' = HTTP 500 (no loader retries); refused / TLS-untrusted locations are sampled because each attempt costs 2 s of loader retries", "background mode: a verdict racing with the triggered load may be either; the model allows both")
 	scratch, _ := report.Scratch("C10")
 	sut.QuietStderr(filepath.Join(scratch, "stderr.log"))
 	var cfgs []config
-	for _, set := range []string{"http", "https-untrusted", "ldap", "ldap+http", "unparsable", "refused+http", "http-shared"} {
+	for _, set := range []string{"http", "https-untrusted", "ldap", "ldap+http", "unparsable", "refused+http", "http-shared", "http-port-sibling"} {
 		for _, f := range []string{"actively", "background"} {
 			for _, sm := range []string{"verify", "none"} {
 				for _, b := range []string{"memory", "disk"} {
@@ -148,7 +148,15 @@ func main() {
 			continue
 		}
 		var todo [][]string
-		if slowSet(c.Set) {
+		if c.Set == "http-port-sibling" {
+			// sampled: 40 short histories + 3 long ones
+			for i := 0; i < 40; i++ {
+				todo = append(todo, hists[rng.Intn(len(hists))])
+			}
+			for i := 0; i < 3; i++ {
+				todo = append(todo, long[rng.Intn(len(long))])
+			}
+		} else if slowSet(c.Set) {
 			// sampled: 6 short histories + 2 long ones
 			for i := 0; i < 6; i++ {
 				todo = append(todo, hists[rng.Intn(len(hists))])
@@ -192,7 +200,7 @@ func runHistory(run *report.Run, w *world.World, c config, h []string, scratch s
 	url := w.CRL.URL(path)
 	var cdp []string
 	switch c.Set {
-	case "http", "http-shared":
+	case "http", "http-shared", "http-port-sibling":
 		cdp = []string{url}
 	case "https-untrusted":
 		cdp = []string{tlsURL + path}
@@ -225,6 +233,17 @@ func runHistory(run *report.Run, w *world.World, c config, h []string, scratch s
 	defer chk.Stop()
 	m := model{srv: "down"}
 	setSrv("down")
+	if c.Set == "http-port-sibling" {
+		// a CRL of the same CA at the same host and path but another port is in force before the
+		// history starts; it says nothing about the distribution point under test
+		w.OCSP.Set(path, origin.Good(goodCRL))
+		sib := w.Leaf(gen.SerialOfWidth(rand.New(rand.NewSource(int64(hn))), 12, false), []string{w.OCSP.URL(path)}, nil)
+		_, _ = chk.Ask(sib) // background mode: the first question only triggers the load
+		if _, err := chk.Ask(sib); err != nil && c.Strict {
+			run.Inconclusive("sibling distribution point on the other port could not be loaded: " + err.Error())
+			return
+		}
+	}
 	var armed atomic.Bool
 	var fired atomic.Int64
 	if c.Backend == "disk" {
